@@ -334,7 +334,7 @@ def _joint_shards(tier):
     out = [({"n": n, "red": 0}, 600) for n in range(2)] + [({"n": 2, "red": 0, "i0": i}, 600) for i in range(0, 64, 1)]
     out += [({"n": 3, "red": 1, "i0": i}, 900) for i in range(16)]
     if tier == "thorough":
-        out += [({"n": 3, "red": 0, "i0": i}, 3600) for i in range(64)]
+        out += [({"n": 3, "red": 0, "i0": i}, 3600) for i in range(0, 64, 4)]
     return out
 
 
@@ -368,7 +368,7 @@ HARNESSES = [
             bounds={"quick": "<= 2 events varying all groups together: id {None,a} x route {None,0} x status {None,inprogress,success,fail} x "
                              "file {none,f} with a symbolic chunk x tags {None,{t}} x symbolic timestamp; 3 events over the sub-alphabet "
                              "with route None and no tags",
-                    "thorough": "3 events over the full 64-letter alphabet"},
+                    "thorough": "3 events: first over every 4th letter of the 64-letter alphabet, the other two over the full alphabet"},
             rule="non-trivial = at least 2 events", sym=("b0", "b1", "b2", "t0", "t1", "t2"), twin_fix={"n": 2, "red": 0}),
 ]
 OUTSIDE = ["text attachments with symbolic payloads (StreamSummary decodes text; codecs are C): payload bytes are symbolic only with binary mime types",
